@@ -202,6 +202,7 @@ type Op struct {
 
 // Sim is the per-run simulator state shared by an engine.
 type Sim struct {
+	muted bool
 	Seed uint64
 	Rng  *Rand
 
@@ -243,7 +244,25 @@ func (s *Sim) Logf(format string, a ...any) {
 	s.mu.Unlock()
 }
 
+// Mute suppresses event-log lines (and their contribution to the log hash)
+// for a phase whose details legitimately depend on a choice the simulator does
+// not make (see seq.evictBurst); the phase logs its own summary with MuteLogf.
+func (s *Sim) Mute(on bool) { s.mu.Lock(); s.muted = on; s.mu.Unlock() }
+
+func (s *Sim) MuteLogf(format string, a ...any) {
+	line := fmt.Sprintf(format, a...)
+	s.mu.Lock()
+	m := s.muted
+	s.muted = false
+	s.logLocked(line)
+	s.muted = m
+	s.mu.Unlock()
+}
+
 func (s *Sim) logLocked(line string) {
+	if s.muted {
+		return
+	}
 	line = fmt.Sprintf("%04d %s", s.Step, line)
 	h := sha256.New()
 	h.Write(s.logH[:])
